@@ -146,6 +146,7 @@ func (r *runner) build() error {
 	w := newWorld()
 	r.w = w
 	dup := sc.Fault == "dup"
+	w.closeErr = sc.Fault == "close-error"
 	ifs := []ifaceSpec{{Name: "eth0", Up: true, Addrs: []string{"10.1.0.1"}}}
 	if (dup || sc.Two) && (sc.Site == "host-udp" || sc.Site == "host-tcpmux") {
 		ifs = append(ifs, ifaceSpec{Name: "eth1", Up: true, Addrs: []string{"10.1.0.1"}})
